@@ -21,7 +21,7 @@ class G:
         self.rng = rng
         self.n = 0
         self.o = dict(arrays=True, structs=True, calls=True, vectors=False, loops=True, floats=True,
-                      max_depth=3, max_stmts=5, assign_expr=True, sibling_reuse=True)
+                      max_depth=3, max_stmts=5, assign_expr=True, sibling_reuse=True, local_aggs_only=False)
         if opts: self.o.update(opts)
         self.feat = {}      # feature histogram
         self.closed_names = []   # names of closed sibling scopes (candidates for reuse)
@@ -289,12 +289,13 @@ class G:
         self.structs = []
         if self.o['structs'] and r.random() < .5:
             fields = [(self.fresh("m"), r.choice([INT, FLOAT] if self.o['floats'] else [INT])) for _ in range(r.randint(1, 3))]
-            if self.o['arrays'] and r.random() < .3: fields.append((self.fresh("m"), Arr(INT, (2,))))
+            if self.o['arrays'] and not self.o['local_aggs_only'] and r.random() < .3: fields.append((self.fresh("m"), Arr(INT, (2,))))
             self.structs.append(Struct(self.fresh("S").replace("S", "St"), fields))
         gsc = Scope()
         globals_ = []
         for _ in range(r.randint(0, 3)):
             k = r.choice(['int', 'float' if self.o['floats'] else 'int', 'arr' if self.o['arrays'] else 'int', 'struct' if self.structs else 'int'])
+            if self.o['local_aggs_only'] and k in ('arr', 'struct'): k = 'int'      # aggregates only as locals (domain of C01_compile_correct_storage)
             n = self.fresh("g")
             if k == 'arr': t = Arr(r.choice([INT, FLOAT] if self.o['floats'] else [INT]), r.choice([(2,), (3,), (2, 2)]))
             elif k == 'struct': t = self.structs[0]
@@ -315,7 +316,7 @@ class G:
                     funcs.append(self.helper(gsc, name=f0.name, params=ps)); self.hit('overload')
         nparams = r.randint(1, 3)
         params = [(self.fresh("p"), r.choice([INT, FLOAT] if self.o['floats'] else [INT])) for _ in range(nparams)]
-        if self.o['arrays'] and r.random() < .25:
+        if self.o['arrays'] and not self.o['local_aggs_only'] and r.random() < .25:
             params.append((self.fresh("p"), Arr(INT, (3,)))); self.hit('array-param')
         ret = r.choice([INT, FLOAT] if self.o['floats'] else [INT])
         f = self.function("f", params, ret, gsc, exported=True)
